@@ -1,4 +1,5 @@
 import MocVerif.Model.STCodec
+import MocVerif.Model.STBuilder
 import MocVerif.Model.Fits
 import MocVerif.Model.STText
 import Driver.Codec
@@ -66,6 +67,14 @@ def toFlat : STMoc → Option FlatST
     | [r], some f => some ((r, e.2) :: f)
     | _, _ => none
 
+def parseCellPair (o : String) : Option (Nat × Nat) :=
+  match o.splitOn ":" with
+  | [t, s] => do let t ← t.toNat?; let s ← s.toNat?; pure (t, s)
+  | _ => none
+
+def parseCellPairs (cells : String) : Option (List (Nat × Nat)) :=
+  if cells == "_" then some [] else (cells.splitOn ",").mapM parseCellPair
+
 def stepST (toks : List String) : Option String :=
   match toks with
   | ["st_sem", tt, a, b, tp, sp] => do
@@ -121,6 +130,11 @@ def stepST (toks : List String) : Option String :=
   | ["st_contains", a, t, s] => do
     let a ← parseST a; let t ← t.toNat?; let s ← s.toNat?
     pure (showBool (memSTB t s a))
+  | ["st_buff", cells] => do
+    -- one buffer of (time cell, space cell) observations through the transliterated `buff_to_moc`
+    let obs ← parseCellPairs cells
+    let es := STBuilder.buffToElems obs
+    pure (if es.isEmpty then "_" else ";".intercalate (es.map fun e => s!"{showNats e.1}@{showNats e.2}"))
   | ["st_obs", obs, tp, sp] => do
     let obs ← parseObs obs; let tp ← parseNats tp; let sp ← parseNats sp
     pure (bits (tp.flatMap fun t => sp.map fun s => obsB obs t s))
